@@ -321,9 +321,9 @@ def storedOf (name : String) (p : PropData κ) : Stored κ :=
   | .dense dt tr rows => { name := name, dtype := dt, hasData := false, hasMissing := p.missing.isSome,
                            len := rows.length, ndim := tr.length + 1, rows := rows }
   | .object es =>
-    -- the offset/shape table is `np.asarray(rows, dtype=uint64)`: 2-D, but `(0,)` without rows
+    -- the offset/shape table is 2-D: `(N, ndim + 1)`, and `(0, 2)` without rows (C11-02 repair)
     { name := name, dtype := (es.head?.map (·.1)).getD .i64, hasData := true,
-      hasMissing := p.missing.isSome, len := es.length, ndim := if es.isEmpty then 1 else 2, rows := [] }
+      hasMissing := p.missing.isSome, len := es.length, ndim := 2, rows := [] }
 
 /-- `serialize_vlen_property_data` refuses elements of different rank (`ValueError`); the dtypes
 have been compared by `create_props_metadata` already -/
